@@ -97,6 +97,18 @@ def check(ctx):
                 cli = cli_args(f, vs["cli"]) if s["cli"] else []
                 cases.append({"id": len(cases), "env": env, "file": file, "cli": cli})
                 meta.append((f, vs, s))
+                if s["file"] and s["cli"]:
+                    # the flag package also accepts -config=<file> and --config <file>: whatever becomes of the file then, what
+                    # the command line says about the option stands
+                    for form in ("eq", "dd"):
+                        cases.append({"id": len(cases), "env": env, "file": file, "cli": cli, "cfgform": form})
+                        meta.append((f, vs, s))
+                if s["env"] and not s["file"] and not s["cli"] and f["yaml"] != "sflow-workers":
+                    # other variables in the environment at the same time: the list-valued type filter (which the loader cannot
+                    # set) and another option's variable
+                    env2 = dict(env, VFLOW_SFLOW_TYPE_FILTER="1,2", VFLOW_SFLOW_WORKERS=str(defaults["sflow-workers"]))
+                    cases.append({"id": len(cases), "env": env2, "file": None, "cli": []})
+                    meta.append((f, vs, s))
                 if s["file"]:
                     # the same with "-config <file>" after the other arguments; with no other argument for this option, after
                     # an argument that sets an unrelated option to its own default
@@ -121,7 +133,7 @@ def check(ctx):
     res = run(cases)
     for c, (f, vs, s), r in zip(cases, meta, res):
         srcs = [x for x in ("env", "file", "cli") if s[x]]
-        ctx.count([f["yaml"], srcs, [str(vs[x]) for x in srcs], c.get("cfglast", False), c["file"] if s.get("broken_file") else ""], nontrivial=bool(srcs))
+        ctx.count([f["yaml"], srcs, [str(vs[x]) for x in srcs], c.get("cfglast", False), c.get("cfgform", ""), sorted(c["env"]), c["file"] if s.get("broken_file") else ""], nontrivial=bool(srcs))
         if r.get("panic"):
             ctx.violation("flagSet panicked for option %s" % f["yaml"], {"case": c})
             continue
